@@ -2,7 +2,7 @@
 encoded for the executable Sim instance in coq/Corr/SimInst.v.
 
 env = {N, p, life (steps or -1), utab[n][c], ttab_levels[n][lev], rows: [step, x, cls]}  (tag = row index)
-Depth classes: Z = 100 / 60 / 20 m over h = 120 m with three unstretched levels (-100, -60, -20):
+Depth classes: Z = 100 / 60 / 10 m over h = 120 m with three unstretched levels (-100, -60, -20):
   class c feels the velocity of level c exactly, and the scalar field of level max(c, 1).
 """
 from __future__ import annotations
@@ -18,7 +18,9 @@ from coqbridge import fl
 PLUG = str(Path(__file__).resolve().parents[1] / "plugins" / "kill_ibm.py")
 DT, DX = 512, 1024.0
 IMAX, JMAX, NLEV = 20, 8, 3
-ZCLS = [100.0, 60.0, 20.0]
+# class 2 sits ABOVE the top rho level (-19.999999999999996 m in floats): the level weight is then clamped to
+# exactly 0; at 20.0 m it was 8.9e-17, which makes the sampled velocity 1 ulp short and the positions inexact below x = 4
+ZCLS = [100.0, 60.0, 10.0]
 LO, HI = 1.5, IMAX - 2.5  # valid region of the full grid in x: i0 + 0.5 < x < i1 - 1.5
 
 
